@@ -128,3 +128,61 @@ class Dawsn(Contract):
         import scipy.special
         x = inp['x_data']; D = len(x); one = [1.0] + [0.0] * (D - 1)
         return {self.out_key(cfg): SI.ode_solution([-2 * v for v in x], one, one, x, float(scipy.special.dawsn(x[0])))}
+
+
+# ---- pullbacks of the Faa di Bruno family (unrolled mode): xbar' = xbar + ybar (*) g, g = the Taylor polynomial of f'(x(t)) computed by the
+# helper for the derivative family of f' (psi' = polygamma(1,.), gammaln' = polygamma(0,.), polygamma(m,.)' = polygamma(m+1,.), U(a,b,.)' = -a U(a+1,b+1,.))
+class PbFaa(Contract):
+    arrays = ('ybar_data', 'x_data', 'y_data', 'out'); modifies = ('out',); returns = 'any'; cfgs = {'distinct': {}}
+    bounded_D = (1, 2, 3); bounded_D_thorough = (1, 2, 3); property_ids = ('C03', 'C06', 'C14')          # D = 4 is not decided within the budget
+    def gtag(self, c): raise NotImplementedError
+    def gscale(self, c): return z3.RealVal(1)
+    def ensures(self, c):
+        from vc.engine import FACT
+        D = ival(c.D); x = c.pre['x_data']; yb = c.pre['ybar_data']; o0 = c.pre['out']; o = c.cur('out'); tag = self.gtag(c); sc = self.gscale(c)
+        der = lambda n: DER(tag)(z3.IntVal(n), x[0])
+        g = [der(0)] + [sum((der(n) / z3.ToReal(FACT(z3.IntVal(n))) * EvalSlowGenericPWR(x, n, k) for n in range(1, D)), z3.RealVal(0)) for k in range(1, D)]
+        g = [sc * t for t in g]
+        return [("xbar'[%d] = xbar[%d] + sum_k ybar[k] g[%d-k]" % (j, j, j), o[z3.IntVal(j)] == o0[z3.IntVal(j)] + sum((yb[z3.IntVal(k)] * g[j - k] for k in range(j + 1)), z3.RealVal(0))) for j in range(D)]
+    def concrete_instances(self, c, D):
+        from vc.engine import FACT
+        x = c.pre['x_data']; out = [FACT(z3.IntVal(n)) == math.factorial(n) for n in range(0, D + 1)]
+        for n in range(1, D):
+            for k in range(1, D): out += pwr_def(c, x, z3.IntVal(n), z3.IntVal(k))
+        return out
+
+def _pbfaa_oracle(self, inp, scal, cfg):
+    x = inp['x_data']; D = len(x); g = SI.compose_faa(x, [self.gder(n, float(x[0]), scal) for n in range(D)])
+    return {'out': SI.add(inp['out'], SI.conv(inp['ybar_data'], g))}
+PbFaa.oracle = _pbfaa_oracle
+PbFaa.sample_x0 = lambda self, name, rng: round(rng.uniform(0.6, 2.0) * 16) / 16
+def _pg(m, x):
+    import scipy.special as sp
+    return float(sp.polygamma(m, x))
+
+@register
+class PbPsi(PbFaa):
+    qual = A('_pb_psi')
+    def gder(self, n, x0, scal): return _pg(1 + n, x0)
+    def gtag(self, c): return 'nthderiv.polygamma|1'
+@register
+class PbGammaln(PbFaa):
+    qual = A('_pb_gammaln')
+    def gder(self, n, x0, scal): return _pg(n, x0)
+    def gtag(self, c): return 'nthderiv.polygamma|0'
+@register
+class PbPolygamma(PbFaa):
+    qual = A('_pb_polygamma'); scalars = {'m': 'int'}
+    def native_scalars(self, cfg, rng): return {'m': rng.choice([0, 1, 2])}
+    def gder(self, n, x0, scal): return _pg(scal['m'] + 1 + n, x0)
+    def gtag(self, c): return 'nthderiv.polygamma|' + str(scalar_of(c, 'm').t + 1)
+@register
+class PbHyperu(PbFaa):
+    qual = A('_pb_hyperu'); scalars = {'a': 'real', 'b': 'real'}; bounded_D = (1, 2); bounded_D_thorough = (1, 2)      # order 2 needs products of three symbolic factors: not decided reliably
+    def gtag(self, c): return 'nthderiv.hyperu|' + str(scalar_of(c, 'a').t + 1.) + '|' + str(scalar_of(c, 'b').t + 1.)
+    def gscale(self, c): return -scalar_of(c, 'a').t
+    def native_scalars(self, cfg, rng): return {'a': rng.choice([0.5, 1.5]), 'b': rng.choice([0.75, 2.25])}
+    def gder(self, n, x0, scal):
+        import scipy.special as sp
+        a, b = scal['a'] + 1., scal['b'] + 1.
+        return float(-scal['a'] * (-1) ** n * sp.poch(a, n) * sp.hyperu(a + n, b + n, x0))
